@@ -211,5 +211,5 @@ pub fn obs_case(data: &[u8], flavour: Fl) -> ObsCase {
         };
         ops.push(o);
     }
-    ObsCase { flavour, start_shared: f & 1 == 1, init: ((f >> 1) % 3, (f >> 3) % 3), guards: flavour == Fl::Sync && f & 0x40 != 0, ops, strict: false, shared_waker: f & 0x20 != 0 }
+    ObsCase { flavour, start_shared: f & 1 == 1, init: ((f >> 1) % 3, (f >> 3) % 3), guards: flavour == Fl::Sync && f & 0x40 != 0, ops, strict: false, shared_waker: f & 0x20 != 0, start_default: f & 0x90 == 0x90 }
 }
